@@ -1,6 +1,12 @@
 (* C07 — file errors are reported, never swallowed, and failed calls change nothing.
-   Proved part: the recycling protocol is unharmed by a failed mutation (Proto.s_mabort);
-   the error-return / no-change part is decided by fault enumeration on the implementation. *)
+   Proved part 1: the recycling protocol is unharmed by a failed mutation (Proto.s_mabort).
+   Proved part 2 (below): Store.Flush on bytes when any ONE WriteAt call k fails after any torn length
+   (DiskFault.flush_fault, compared byte for byte with the implementation under fault injection): the
+   Flush fails, nothing durable is damaged, the visible contents are unchanged, the store is still
+   represented by the file, and a retried Flush -- also after several failed attempts -- produces
+   exactly the file of a Flush that never failed.
+   The error-return / no-change part for the other calls is decided by fault enumeration on the
+   implementation. *)
 From stdpp Require Import gmap.
 From GK Require Import Proto ProtoProofs.
 
@@ -24,3 +30,91 @@ Theorem c07_current_tree_unmarked : forall s, reachable s -> forall h hd v x,
   vers s !! v = Some x -> forall n, n ∈ v_tree x -> marks s !! n = Some U.
 Proof. exact ProtoProofs.current_tree_unmarked. Qed.
 Print Assumptions c07_current_tree_unmarked.
+
+(* ---------------------------------------------------------------------------------------------- *)
+(* Store.Flush with a failing WriteAt call, on bytes *)
+From GK Require Import Base Treap Store Codec Disk DiskProofs DiskFault DiskFaultProofs.
+From Coq Require Import ZArith List.
+Import ListNotations.
+Local Open Scope Z_scope.
+
+(* every call position inside the Flush makes it return an error ... *)
+Theorem c07_flush_fault_fails : forall k torn f size cs f1 s1 cs1 b,
+  (k < flush_calls cs)%nat -> flush_fault k torn f size cs = (f1, s1, cs1, b) -> b = true.
+Proof. exact DiskFaultProofs.flush_fault_fails. Qed.
+Print Assumptions c07_flush_fault_fails.
+
+(* ... and a plan beyond its last call is the fault-free Flush (the model of the failing Flush extends Disk.flush_bytes) *)
+Theorem c07_flush_fault_none : forall k torn f size cs,
+  0 <= size -> (flush_calls cs <= k)%nat -> flush_fault k torn f size cs = (flush_bytes f size cs, false).
+Proof. exact DiskFaultProofs.flush_fault_none. Qed.
+Print Assumptions c07_flush_fault_none.
+
+(* no failed Flush damages the durable states already in the file: nothing below the old size changes, size never
+   moves backwards and stays inside the file *)
+Theorem c07_failed_flush_durable : forall k torn f size cs f1 s1 cs1 b,
+  0 <= size <= blen f -> flush_fault k torn f size cs = (f1, s1, cs1, b) ->
+  agree f f1 size /\ size <= s1 <= blen f1.
+Proof. exact DiskFaultProofs.flush_fault_durable. Qed.
+Print Assumptions c07_failed_flush_durable.
+
+(* the visible contents are exactly as before: same names, comparators and trees up to the recorded locations *)
+Theorem c07_failed_flush_contents : forall k torn f size cs f1 s1 cs1 b,
+  flush_fault k torn f size cs = (f1, s1, cs1, b) ->
+  map fst cs1 = map fst cs /\
+  map (fun nc => c_cmp (snd nc)) cs1 = map (fun nc => c_cmp (snd nc)) cs /\
+  map (fun nc => erase (c_tree (snd nc))) cs1 = map (fun nc => erase (c_tree (snd nc))) cs.
+Proof. exact DiskFaultProofs.flush_fault_contents. Qed.
+Print Assumptions c07_failed_flush_contents.
+
+(* a retried Flush behaves as if the failed call had never been made: same file, same size, same collections,
+   for EVERY call number k and EVERY torn length *)
+Theorem c07_flush_retry_same : forall k torn f size cs f1 s1 cs1,
+  0 <= size <= blen f -> flush_fault k torn f size cs = (f1, s1, cs1, true) ->
+  flush_bytes f1 s1 cs1 = flush_bytes f size cs.
+Proof. exact DiskFaultProofs.flush_retry_same. Qed.
+Print Assumptions c07_flush_retry_same.
+
+(* also after two failed attempts in a row (and so, by iterating, after any number) *)
+Theorem c07_flush_retry_twice : forall k1 t1 k2 t2 f size cs fa sa csa fb sb csb,
+  0 <= size <= blen f ->
+  flush_fault k1 t1 f size cs = (fa, sa, csa, true) ->
+  flush_fault k2 t2 fa sa csa = (fb, sb, csb, true) ->
+  flush_bytes fb sb csb = flush_bytes f size cs.
+Proof. exact DiskFaultProofs.flush_retry_twice. Qed.
+Print Assumptions c07_flush_retry_twice.
+
+(* what a re-open sees after the failed Flush is the previous Flush (side condition of C03: the torn bytes
+   do not themselves contain a complete root record) *)
+Theorem c07_failed_flush_reopen : forall k torn f size cs f1 s1 cs1 b e0 m0 ts,
+  0 <= size <= blen f -> e0 <= size ->
+  flush_fault k torn f size cs = (f1, s1, cs1, b) ->
+  scan f (blen f) = ScanFound e0 m0 ->
+  (forall e', e0 < e' <= blen f1 -> root_at f1 e' = None) ->
+  load_all f m0 e0 = Some ts ->
+  Forall (fun nt => rep f (snd nt) /\ below (snd nt) e0 /\ (Treap.size (snd nt) <= S (length f1))%nat) ts ->
+  decode_store f1 = OpOk e0 ts.
+Proof. exact DiskFaultProofs.flush_fault_reopen. Qed.
+Print Assumptions c07_failed_flush_reopen.
+
+(* the in-memory store is still represented by the file: every record it points to (and may lazily load or
+   re-load after an eviction) holds the right bytes *)
+Theorem c07_failed_flush_represented : forall k torn f size cs f1 s1 cs1 b,
+  0 <= size <= blen f -> Forall (coll_ok f size) cs ->
+  flush_fault k torn f size cs = (f1, s1, cs1, b) -> s1 < two63 ->
+  Forall (coll_ok f1 s1) cs1.
+Proof. exact DiskFaultProofs.flush_fault_coll_ok. Qed.
+Print Assumptions c07_failed_flush_represented.
+
+(* non-vacuity: on a three-item collection every call position and four torn lengths fail and retry to the same file *)
+Theorem c07_fault_example :
+  let it k p := mkItem [k] [k; k; k] p in
+  let t0 := insert cmp_bytes (insert cmp_bytes (insert cmp_bytes E (it 97%N 5)) (it 98%N 9)) (it 99%N 2) in
+  let cs0 : colls := [([120%N], mkColl O t0)] in
+  forallb (fun k => forallb (fun torn =>
+     let '(f1, s1, cs1, failed) := flush_fault k torn [] 0 cs0 in
+     let '(f2, s2, _) := flush_bytes f1 s1 cs1 in
+     let '(f3, s3, _) := flush_bytes [] 0 cs0 in
+     failed && beq f2 f3 && (s2 =? s3)) [0; 1; 7; 30]%nat) (seq 0 (flush_calls cs0)) = true.
+Proof. exact DiskFaultProofs.ex_fault_retry. Qed.
+Print Assumptions c07_fault_example.
